@@ -14,6 +14,8 @@ def setup():
     global TP, DOMAIN
     if TP is not None:
         return
+    from symx import loader
+    loader.ORDER_SETS = True          # the iteration order of every set built by mako's own code becomes a harness choice
     TP = common.mako("template")
     from symx import env
     TP.os = env.sym_posixpath().__sx_os_shim__
@@ -96,8 +98,91 @@ def on_paths(p, r, exc, acc):
     acc.sample(dict(template=r["template"], path=r["path"], output=res[0]))
 
 
+# ------------------------------------------------------------------ PYTHONHASHSEED: the iteration order of sets as an environment choice
+SEED_CORPUS = {
+    "overlapping-imports": {
+        "/t": '<%namespace name="widgets" file="/widgets" import="*"/><%namespace name="forms" file="/forms" import="*"/>'
+              '<%namespace name="theme" file="/theme" import="label, only_theme"/>${label()} ${only_widgets()} ${only_theme()} ${field()}',
+        "/widgets": '<%def name="label()">widgets-label</%def><%def name="only_widgets()">ow</%def><%def name="field()">widgets-field</%def>',
+        "/forms": '<%def name="label()">forms-label</%def><%def name="field()">forms-field</%def>',
+        "/theme": '<%def name="label()">theme-label</%def><%def name="only_theme()">ot</%def>'},
+    "many-names": {
+        "/t": "<%! import os %><%page args=\"pa=1, pb=2\"/><% la = 1; lb = 2; lc = la + lb %>"
+              "<%def name=\"a(x, y=1)\">${x}${y}${z}${w}${la if False else ''}</%def><%def name=\"b()\">${a(1)}${q}${r}${s}<%def name=\"inner()\">${q}${z}</%def>${inner()}</%def>\n"
+              "% for i in items:\n${i}${a(i)}${b()}${lc}${pa}${pb}\n% endfor\n<%block name=\"blk\">${z}${w}${q}</%block>"},
+    "inheritance": {
+        "/t": "<%inherit file='/base'/><%namespace name='n1' file='/widgets' import='label'/><%def name='d()'>${label()}${z}</%def><%block name='x'>${d()}${q}</%block>body ${w}",
+        "/base": "<%namespace name='n2' file='/forms' import='*'/>B(${label()} <%block name='x'>bx</%block> ${next.body()} ${self.d()})",
+        "/widgets": '<%def name="label()">widgets-label</%def>', "/forms": '<%def name="label()">forms-label</%def><%def name="field()">forms-field</%def>'},
+}
+SEED_DATA = dict(z="Z", w="W", q="Q", r="R", s="S", items=[1, 2])
+ORDERS = ["sorted", "reversed", "rotated"]
+
+
+def seed_render(LKm, name, mode):
+    from symx import loader
+    loader.SET_ORDER["mode"] = mode
+    try:
+        lk = LKm.TemplateLookup()
+        for k, v in SEED_CORPUS[name].items():
+            lk.put_string(k, v)
+        try:
+            return "".join(lk.get_template("/t").render(**SEED_DATA).split())
+        except Exception as e:
+            return "raised %s: %s" % (type(e).__name__, e)
+    finally:
+        loader.SET_ORDER["mode"] = None
+
+
+def h_seed(p):
+    LKm = common.mako("lookup")
+    name = list(SEED_CORPUS)[p.choose(len(SEED_CORPUS), "template")]
+    mode = ORDERS[p.choose(len(ORDERS), "set_iteration_order")]
+    return dict(template=name, order=mode, got=seed_render(LKm, name, mode), base=seed_render(LKm, name, None))
+
+
+def on_seed(p, r, exc, acc):
+    if exc is not None:
+        acc.candidate(kind="harness-exception", input=None, detail="%s: %s" % (type(exc).__name__, str(exc)[:200]))
+        return
+    acc.tags["asserted"] += 1
+    acc.vcs += 1
+    if r["got"] != r["base"] or r["base"].startswith("raised"):
+        acc.candidate(kind="output-depends-on-set-order", input=dict(seed_template=r["template"], order=r["order"]),
+                      detail="%r with sets iterated %s, %r in the interpreter's own order" % (r["got"], r["order"], r["base"]))
+    acc.sample(dict(template=r["template"], order=r["order"], output=r["got"]))
+
+
+SEED_CHILD = """
+import sys, os
+sys.path.insert(0, os.environ.get("MAKO_TREE", "/repo")); sys.path.insert(0, "/verif")
+from mako.lookup import TemplateLookup
+from props.C08 import SEED_CORPUS, SEED_DATA
+lk = TemplateLookup()
+for k, v in SEED_CORPUS[sys.argv[1]].items(): lk.put_string(k, v)
+print("".join(lk.get_template("/t").render(**SEED_DATA).split()))
+"""
+
+
 def make_replay(c):
     i = c["input"] or {"uris": ["a", "b"]}
+    if "seed_template" in i:
+        body = """
+# the same template set rendered by fresh interpreters under different PYTHONHASHSEED values
+import subprocess
+sys.path.insert(0, "/verif")
+CASE = __CASE__
+from props.C08 import SEED_CHILD
+outs = {}
+for seed in range(0, 24):
+    r = subprocess.run([sys.executable, "-c", SEED_CHILD, CASE["seed_template"]], env=dict(os.environ, PYTHONHASHSEED=str(seed)), capture_output=True, text=True)
+    outs.setdefault(r.stdout.strip() or r.stderr.strip()[-200:], []).append(seed)
+for o, seeds in outs.items(): print("seeds", seeds, "->", o)
+bad = None if len(outs) == 1 else "the rendered text depends on PYTHONHASHSEED"
+print("VIOLATED: " + bad if bad else "HOLDS")
+sys.exit(1 if bad else 0)
+""".replace("__CASE__", repr(i))
+        return (c["kind"], body, repr(i["seed_template"]))
     body = """
 sys.path.insert(0, "/verif")
 CASE = __CASE__
@@ -144,12 +229,18 @@ def run(check, tier):
         "a real lookup reading Template.source" % len(DOMAIN.cps),
         "construction / rendering paths: for solver-chosen (corpus template, path) pairs the real output on that path is compared with the "
         "output of the same template compiled from a string - concrete replay, not a symbolic claim")
-    check.not_claimed("equivalence of the paths for arbitrary templates", "PYTHONHASHSEED independence", "mako-render command line")
+    check.assume("PYTHONHASHSEED: every set built by mako's own modules (set(), set displays, set comprehensions, results of set algebra) is a "
+                 "set whose iteration order is a harness choice (sorted / reversed / rotated by one - orders some hash seed produces); three "
+                 "template sets (overlapping import= namespaces, many names in nested scopes, inheritance with imports) are compiled and "
+                 "rendered in-process under each order and must give the text of the interpreter's own order; counterexamples are replayed "
+                 "in fresh interpreters under 24 hash seeds")
+    check.not_claimed("equivalence of the paths for arbitrary templates", "set orders other than the three modelled", "mako-render command line")
     jobs = []
     N = {"quick": 2, "thorough": 3}[tier]
     for a in range(1, N + 1):
         for b in range(a, N + 1):
             jobs.append(("C08-ids-%d-%d" % (a, b), h_ids(a, b), on_ids, "module_id of two symbolic URIs of %d and %d characters" % (a, b), dict(chars=[a, b]), ("asserted",)))
+    jobs.append(("C08-hashseed", h_seed, on_seed, "set iteration order as an environment choice x template sets", dict(templates=list(SEED_CORPUS), orders=ORDERS), ("asserted",)))
     jobs.append(("C08-paths", h_paths, on_paths, "corpus x construction/rendering paths (concrete)", dict(templates=CORPUS, paths=PATHS), ("asserted",)))
     for j in jobs:
         driver.register(j[0], j[1], j[2])
